@@ -538,8 +538,23 @@ class Engine:
             s.add(p)
         s.add(z3.Not(f))
         t0 = time.time()
-        r = s.check()
         backend = 'z3'
+        s.set('timeout', min(3000, self.SOLVER_TIMEOUT_MS))
+        r = s.check()
+        if r == z3.unknown:
+            # polynomial equalities under cos^2+sin^2=1 / definitional equalities: certificate search is cheap and
+            # its result is confirmed by z3 (see polycert); otherwise the full budget, then the other solvers
+            try:
+                from . import polycert
+                ok, info = polycert.certify(self.pc, f)
+            except Exception:
+                ok = False
+            if ok:
+                self.cert_used = getattr(self, 'cert_used', 0) + 1
+                r, backend = z3.unsat, 'linear-combination-certificate(z3-checked identity)'
+            else:
+                s.set('timeout', self.SOLVER_TIMEOUT_MS)
+                r = s.check()
         if r == z3.unknown and self.canary_expect is None:
             r, backend = self.second_opinion(s, f)
         if r == z3.unsat and self.canary_expect is None and os.environ.get('VERIF_TIER_EFFECTIVE') == 'thorough':
